@@ -254,6 +254,10 @@ def run_scenario(sc, base, fast=True, mode='each', real_passes=None, on_test=Non
                 orig_rp = tm.run_pass
 
                 def run_pass(p):
+                    if len(o.after_pass) > sc.get('max_passes', 400):
+                        # cached passes replay without scheduling anything: bound the main loop itself
+                        o.diverged = True
+                        raise Diverged()
                     try:
                         orig_rp(p)
                     finally:
